@@ -8,6 +8,7 @@ starting a line with `//@`:
   //@contract                  lines up to the next directive: requires/ensures/decreases block
   //@loop <ordinal>            lines up to the next directive: invariant/decreases of the k-th loop
   //@bodystart                 ghost text inserted right after the body's opening brace
+  //@loopbody <ordinal>        ghost text inserted right after the k-th loop body's opening brace
   //@beforeloop <ordinal>      ghost text inserted right before the k-th loop's keyword
   //@foriter <ordinal>         one line: the name given to the k-th (for-in) loop's ghost iterator
   //@afterloop <ordinal>       ghost text inserted right after the k-th loop's closing brace
@@ -441,6 +442,24 @@ def generate(template_path, twin=False):
                 # widen: the type and all of its named fields become pub (type definitions only)
                 cleaned = re.sub(r"^(\s*)(struct|enum)\b", r"\1pub \2", cleaned, count=1)
                 cleaned = re.sub(r"(?m)^(\s+)([a-z_][A-Za-z0-9_]*\s*:)", r"\1pub \2", cleaned)
+                mt = re.match(r"(\s*pub\s+struct\s+\w+\s*(<[^>]*>)?\s*)\((.*)\)\s*;\s*$", cleaned, re.S)
+                if mt:
+                    # tuple struct: widen every positional field
+                    inner, depth, parts, cur = mt.group(3), 0, [], ""
+                    for ch in inner:
+                        if ch in "(<[":
+                            depth += 1
+                        elif ch in ")>]":
+                            depth -= 1
+                        if ch == "," and depth == 0:
+                            parts.append(cur)
+                            cur = ""
+                        else:
+                            cur += ch
+                    if cur.strip():
+                        parts.append(cur)
+                    parts = [x if x.strip().startswith("pub") else " pub " + x.strip() for x in parts]
+                    cleaned = mt.group(1) + "(" + ",".join(parts) + ");"
             out.append(cleaned)
             report["items"].append({"file": words[1], "item": words[2], "role": kind,
                                     "sha256": hashlib.sha256(cleaned.encode()).hexdigest(),
@@ -520,7 +539,7 @@ def generate(template_path, twin=False):
                 continue
             if b["kind"] == "bodystart":
                 inserts.append((1, "\n" + txt + "\n"))
-            elif b["kind"] in ("loop", "afterloop", "beforeloop", "foriter"):
+            elif b["kind"] in ("loop", "afterloop", "beforeloop", "foriter", "loopbody"):
                 if loops is None:
                     loops = find_loops(body_bl)
                 k = int(b["arg"])
@@ -528,6 +547,8 @@ def generate(template_path, twin=False):
                     raise AnchorLost("%s: loop #%d not found (have %d)" % (item, k, len(loops)))
                 if b["kind"] == "loop":
                     inserts.append((loops[k][0], "\n" + txt + "\n"))
+                elif b["kind"] == "loopbody":
+                    inserts.append((loops[k][0] + 1, "\n" + txt + "\n"))
                 elif b["kind"] == "beforeloop":
                     inserts.append((loops[k][1], "\n" + txt + "\n"))
                 elif b["kind"] == "foriter":
